@@ -78,6 +78,7 @@ type Node struct {
 	Prepend string // Process.Prepend (a launcher such as "nice -n 10")
 	PadTo   int
 	GlueIn  bool // in-path placeholders glued to an option: -i={i:x}
+	JoinMod string // a second occurrence of the first joined in-port, with this modifier, passed as -note
 	Rec     bool // a pass-through recorder is attached to every out-port edge
 	// components
 	SplitLines int
